@@ -209,17 +209,17 @@ def rule_update_index_guard(ctx, cfg='prod-all'):
         yield Ob('RF-L', '%s#limit:update_index' % us.path, strict and not too_strict,
                  'a signature is returned only if update_index < n (position n - 1 allowed, position n refused)', us.span,
                  fact={'update_index+1<=n': strict, 'update_index+2<=n': too_strict}, expected={'update_index+1<=n': True, 'update_index+2<=n': False})
-    # the generator used is values[update_index + 1] i.e. H[update_index]
-    g = [(bi, t) for bi, t in us.calls() if (t.get('callee') or '') == 'core::slice::<impl [T]>::get']
-    if not g:
+    # the generator used is values[update_index + 1] i.e. H[update_index]: absolute position of every generator element that is multiplied
+    from rf_codec import generator_pairings, ZoneSum
+    recs = [r for r in generator_pairings(ctx, cfg, us.path) if r['start'] is not None]
+    if not recs:
         yield Ob('RF-M', '%s#generator-offset' % us.path, False, 'the updated message position i selects generators.values[i + 1] (H_i), as in sign/verify', us.span,
-                 fact='no checked access values[1..].get(update_index) found', expected='values[1..][update_index]')
-    for bi, t in g:
-        d = z.desc_place(t['args'][0]['pl'])
-        idx = z.term_op(t['args'][1])
-        ok = d[0] == 'sub' and d[2][0] == 'from' and d[2][1] == (None, 1) and idx == ti
-        yield Ob('RF-M', '%s#generator-offset' % us.path, ok, 'the updated message position i selects generators.values[i + 1] (H_i), as in sign/verify', us.span,
-                 fact={'slice': d[2][0] if d[0] == 'sub' else d[0], 'from': tfmt(d[2][1]) if d[0] == 'sub' else None, 'index': tfmt(idx)}, expected='values[1..][update_index]')
+                 fact='no product with an element of generators.values found', expected='values[update_index + 1]')
+    for k, r in enumerate(recs):
+        pos = ZoneSum(r['start'], r['gpos'])
+        yield Ob('RF-M', '%s#generator-offset' % us.path + ('' if k == 0 else '~%d' % k), pos == tadd(ti, 1),
+                 'the updated message position i selects generators.values[i + 1] (H_i), as in sign/verify', r['where'],
+                 fact={'slice_start': tfmt(r['start']), 'index': tfmt(r['gpos']), 'absolute_position': tfmt(pos)}, expected='update_index + 1')
 
 
 # ---------------------------------------------------------------------------------- RF-T size thresholds
@@ -232,6 +232,7 @@ THRESHOLDS = {
     ('utils::util::bbsplus_utils::i2osp', 8): 'I2OSP width vs usize width',
     ('utils::util::bbsplus_utils::i2osp', 0): 'I2OSP overflow test',
     ('utils::util::bbsplus_utils::calculate_blind_challenge', 0): 'at least one generator',
+    ('bbsplus::blind::finalize_blind_sign', 2): 'the blind generators without the first and the last one exist only if there are more than two (today: get(1..len-1).unwrap_or_default())',
 }
 
 
